@@ -40,7 +40,7 @@ func (c16) Describe() engine.Info {
 			"Oracle: 162 cycles after the last start OAM holds, byte for byte, a value the source byte had during that transfer; reads of FE00-FEFF return FF from cycle 2 to 160 of a running transfer (0, 1, 161: either) and data / 00 afterwards; nothing else changes OAM. Signature = (source region, restarted?, restart phase class, source changed during transfer?)." +
 			" The LCD may be switched (or LCDC rewritten) while the transfer runs. Environment dimensions as C12.",
 		Assumptions:    []string{"LCD off (OAM otherwise plain) in two thirds of the scenarios; in the others the LCD is on, OAM is read only while the transfer blocks it, and the result is judged through the side-effect-free accessor; the CPU is parked in high RAM", "a source byte changed while the copy runs may be copied old or new"},
-		RequiredProbes: []string{"lcd_switched_during_transfer", "oam_read_during_transfer_in_mode2", "dma_started", "dma_restarted_while_running", "source_changed_during_transfer", "oam_read_during_transfer", "echo_source"},
+		RequiredProbes: []string{"lcd_switched_during_transfer", "oam_read_during_transfer_in_mode2", "dma_started", "dma_restarted_while_running", "source_changed_during_transfer", "oam_read_during_transfer", "echo_source", "out_of_range_value_then_restart", "oam_store_during_transfer"},
 		RealComponents: realComponents, StubComponents: stubComponents,
 		Sweeps: []string{"every source page 00-F1 (indices 0..241)"},
 	}
@@ -55,10 +55,23 @@ func (c16) Generate(r *engine.Rand, index int, tier string) *engine.Scenario {
 		page = uint8(index)
 	}
 	at := uint64(r.Range(1, 40))
-	sc.Events = append(sc.Events, engine.Event{At: at, K: "bus_w", A: 0xff46, V: page, S: "dma"})
+	first := page
+	nRestart := []int{0, 0, 1, 1, 2, 3}[r.Intn(6)]
+	if index >= 0xf2 && r.Chance(1, 8) {
+		// a value outside 00-F1 first (what such a transfer copies is nobody's business), replaced while
+		// it runs by a transfer from a proper page: that one is judged like any other
+		first = uint8(r.Range(0xf2, 0xff))
+		if nRestart == 0 {
+			nRestart = 1
+		}
+	}
+	sc.Events = append(sc.Events, engine.Event{At: at, K: "bus_w", A: 0xff46, V: first, S: "dma"})
 	last := at
-	for i, n := 0, []int{0, 0, 1, 1, 2, 3}[r.Intn(6)]; i < n; i++ {
+	for i, n := 0, nRestart; i < n; i++ {
 		d := uint64(r.Range(1, 170))
+		if first >= 0xf2 && i == 0 {
+			d = uint64(r.Range(1, 161))
+		}
 		if r.Chance(1, 3) {
 			d = uint64([]int{1, 2, 3, 159, 160, 161, 162, 163}[r.Intn(8)])
 		}
@@ -91,13 +104,33 @@ func (c16) Generate(r *engine.Rand, index int, tier string) *engine.Scenario {
 			sc.Events = append(sc.Events, engine.Event{At: t, K: "bus_w", A: src + uint16(r.Intn(0xa0)), V: r.Byte(), S: "src"})
 		}
 	}
+	if r.Chance(1, 5) {
+		// the CPU stores into OAM while the transfer runs (LCD off only: no OAM scan to disturb): the
+		// transfer takes its 162 cycles all the same, and the cell ends up holding the source byte or,
+		// if the store got through after the cell was copied, the stored byte
+		sc.SetP("oam_stores", 1)
+		for i, n := 0, r.Range(1, 4); i < n; i++ {
+			k := r.Range(1, 162)
+			cell := k - 2 + r.Range(-1, 1)
+			if r.Chance(1, 3) {
+				cell = r.Intn(0xa0)
+			}
+			if cell < 0 {
+				cell = 0
+			}
+			if cell > 0x9f {
+				cell = 0x9f
+			}
+			sc.Events = append(sc.Events, engine.Event{At: last + uint64(k), K: "bus_w", A: 0xfe00 + uint16(cell), V: r.Byte(), S: "oamstore"})
+		}
+	}
 	sortEvents(sc.Events)
 	for i := 1; i < len(sc.Events); i++ {
 		if sc.Events[i].At <= sc.Events[i-1].At {
 			sc.Events[i].At = sc.Events[i-1].At + 1
 		}
 	}
-	if r.Chance(1, 3) {
+	if sc.P("oam_stores", 0) == 0 && r.Chance(1, 3) {
 		// LCD on: the transfer is longer than a scan line, so it overlaps the PPU's own OAM scan
 		sc.SetP("lcd", 1)
 		sc.SetP("lcd_lead", int64(r.Range(1, 600)))
@@ -209,12 +242,21 @@ func (c16) Execute(sc *engine.Scenario) *engine.Result {
 		return "echo"
 	}
 	restarted, changed := false, false
+	invalid := false          // the running transfer was started with a value outside 00-F1: not judged
 	phase := ""
 	dg := engine.NewDigest()
 	ok := true
 	ei := 0
 	observe := func() {
 		n := m.N
+		if running && invalid {
+			if n-start >= 170 {
+				// nothing replaced it: whatever it left in OAM is the contents from now on
+				expect = m.PeekOAM()
+				running, invalid = false, false
+			}
+			return
+		}
 		// three OAM reads per cycle: fixed, data area, unusable area
 		addrs := []uint16{0xfe00, 0xfe00 + uint16((n*7)%0xa0), 0xfea0 + uint16((n*5)%0x60)}
 		if lcdOn {
@@ -308,6 +350,10 @@ func (c16) Execute(sc *engine.Scenario) *engine.Result {
 				}
 				running = true
 				start = m.N
+				invalid = ev.V >= 0xf2
+				if invalid {
+					res.Probe("out_of_range_value_then_restart")
+				}
 				srcBase = uint16(ev.V) << 8
 				if ev.V >= 0xe0 {
 					res.Probe("echo_source")
@@ -322,6 +368,21 @@ func (c16) Execute(sc *engine.Scenario) *engine.Result {
 				snapshot()
 				res.Probe("dma_started")
 				res.Fault("dma_start")
+			case "oamstore":
+				if lcdOn {
+					continue // the OAM scan is none of this check's business
+				}
+				cell := int(ev.A - 0xfe00)
+				if running {
+					if allowed[cell] == nil {
+						allowed[cell] = map[uint8]bool{}
+					}
+					allowed[cell][ev.V] = true
+					res.Probe("oam_store_during_transfer")
+				} else if !lcdOn {
+					expect[cell] = ev.V
+				}
+				res.Fault("oam_store")
 			case "lcdc":
 				now := ev.V&0x80 != 0
 				if running && now != lcdOn {
